@@ -29,6 +29,8 @@ def scenario(ctx, i):
     N = int(r.integers(max(2 * K, 3), 30 if ctx.tier == "quick" else 120))
     centers = r.normal(0, 4, size=(K, D))
     x = gen.maybe_int(r, centers[r.integers(0, K, N)] + r.normal(size=(N, D)), floats=False)
+    if x.dtype.kind == "f":  # data far from the origin (un-centred features): the distortion is about spreads, not about |x|
+        x = x + float(r.choice([0.0, 0.0, 0.0, 1e3, 1e6, 1e7])) * r.choice([-1.0, 1.0], size=D)
     cent = x[r.choice(N, K, replace=False)] + 0.1 * r.normal(size=(K, D))
     if r.random() < 0.25:  # initial centroids handed over as an integer-typed array (legal: any array-like of shape (K, D))
         ci = np.rint(cent).astype(np.int64)
